@@ -59,10 +59,28 @@ class _Linalg:
         return _np.linalg.norm(x, axis=axis, **kw)
 
 
+class _FFT:
+    def __getattr__(self, name):
+        return getattr(_np.fft, name)
+
+    @staticmethod
+    def fftshift(x, axes=None):
+        if getattr(x, "_symx_passthrough", False):
+            return x  # shape-only: contents are opaque anyway
+        return _np.fft.fftshift(x, axes=axes)
+
+    @staticmethod
+    def ifftshift(x, axes=None):
+        if getattr(x, "_symx_passthrough", False):
+            return x
+        return _np.fft.ifftshift(x, axes=axes)
+
+
 class SymNP:
     """Module-like proxy for numpy."""
 
     linalg = _Linalg()
+    fft = _FFT()
 
     def __init__(self, symbolic_float_arrays=True):
         self._sfa = symbolic_float_arrays
@@ -118,6 +136,8 @@ class SymNP:
         if isinstance(shape, (tuple, list)):
             shape = tuple(int(s) if isinstance(s, Sym) else s for s in shape)
         k = _kind(dtype)
+        if not self._sfa and not is_symbolic(value):
+            return _np.full(shape, value, dtype=dtype)
         if k in ("b",) and not is_symbolic(value):
             out = _np.full(shape, value, dtype=dtype)
             return out.astype(object).view(A.SymArray)
@@ -152,6 +172,8 @@ class SymNP:
         return self._filled(_np.shape(a), 1, dtype or getattr(a, "dtype", None) if getattr(a, "dtype", None) != object else None)
 
     def eye(self, n, m=None, k=0, dtype=None, **kw):
+        if not self._sfa:
+            return _np.eye(n, m, k, dtype=dtype or float)
         out = _np.eye(n, m, k, dtype=int)
         return out.astype(object).view(A.SymArray)
 
@@ -311,6 +333,8 @@ class SymNP:
         return _np.cross(a, b, axis=axis, **kw)
 
     def unravel_index(self, indices, shape):
+        if hasattr(indices, "_unravel"):
+            return indices._unravel(shape)
         if isinstance(indices, Sym):
             # row-major decode with symbolic flat index
             out = []
@@ -363,5 +387,48 @@ class SymNP:
             return A.elementwise(lambda v, l, h: A._minimum(A._maximum(v, l), h), a, lo, hi)
         return _np.clip(a, lo, hi, **kw)
 
+    def meshgrid(self, *xi, **kw):
+        from .shapes import SymRange, _MeshList
+
+        if any(isinstance(x, SymRange) for x in xi):
+            if kw.get("indexing", "xy") != "ij" or kw.get("sparse", False):
+                raise Unsupported("meshgrid of symbolic ranges: only indexing='ij', dense")
+            rs = [x if isinstance(x, SymRange) else SymRange(len(x), x[0] if len(x) else 0, (x[1] - x[0]) if len(x) > 1 else 0) for x in xi]
+            return _MeshList(rs)
+        return _np.meshgrid(*xi, **kw)
+
+    def stack(self, arrays, axis=0, **kw):
+        from .shapes import MeshStub, _MeshList
+
+        if isinstance(arrays, _MeshList):
+            if axis != 0:
+                raise Unsupported("stack(meshgrid) along axis != 0")
+            return MeshStub(arrays.ranges, stacked=True)
+        return _np.stack(arrays, axis=axis, **kw)
+
+    def pad(self, x, pad_width, mode="constant", **kw):
+        import operator
+
+        def conc(v):
+            if isinstance(v, (tuple, list)):
+                return tuple(conc(w) for w in v)
+            return operator.index(v) if isinstance(v, Sym) else v
+
+        return _np.pad(x, conc(pad_width), mode=mode, **kw)
+
     def isscalar(self, x):
         return isinstance(x, (Sym, SymBool)) or _np.isscalar(x)
+
+
+class BlindNP(SymNP):
+    """numpy shim for "every possible arg-max outcome": argmax over concrete (data dependent) arrays returns an
+    arbitrary in-range index instead of the index of the actual maximum."""
+
+    def argmax(self, a, axis=None, **kw):
+        from .shapes import ArbIndex
+
+        if isinstance(a, _np.ndarray) and a.dtype != object and axis is None:
+            if a.size == 0:
+                raise ValueError("attempt to get argmax of an empty sequence")
+            return ArbIndex(a.shape, "peak")
+        return super().argmax(a, axis=axis, **kw)
